@@ -5,6 +5,7 @@ import (
 	"fmt"
 	"go/ast"
 	"go/constant"
+	"go/parser"
 	"go/printer"
 	"go/token"
 	"go/types"
@@ -77,6 +78,15 @@ func load(repo, config, fixture string) (*Loaded, error) {
 		Env:        env,
 		BuildFlags: []string{"-tags=verif"},
 		Tests:      false,
+		// The repository's own files are brought into one spelling before type checking, so
+		// that the rules see one form of constructs that mean the same (normalizeAST).
+		ParseFile: func(fset *token.FileSet, filename string, src []byte) (*ast.File, error) {
+			f, err := parser.ParseFile(fset, filename, src, parser.AllErrors|parser.ParseComments)
+			if err == nil && strings.HasPrefix(filename, dir) {
+				normalizeAST(f)
+			}
+			return f, err
+		},
 	}
 	pkgs, err := packages.Load(cfg, patterns...)
 	if err != nil {
@@ -481,4 +491,49 @@ func (l *Loaded) declAt(pos token.Pos) *ast.FuncDecl {
 		}
 	}
 	return nil
+}
+
+// normalizeAST rewrites, inside function bodies, the statement "var x = e" (one spec, no
+// explicit type) into the equivalent "x := e": both declare x with the type of e in the
+// enclosing block.  Positions are kept.  Nothing else is changed.
+func normalizeAST(f *ast.File) {
+	fix := func(list []ast.Stmt) {
+		for i, st := range list {
+			ds, ok := st.(*ast.DeclStmt)
+			if !ok {
+				continue
+			}
+			gd, ok := ds.Decl.(*ast.GenDecl)
+			if !ok || gd.Tok != token.VAR || len(gd.Specs) != 1 || gd.Lparen.IsValid() {
+				continue
+			}
+			vs := gd.Specs[0].(*ast.ValueSpec)
+			if vs.Type != nil || len(vs.Values) == 0 {
+				continue
+			}
+			allBlank := true
+			var lhs []ast.Expr
+			for _, nm := range vs.Names {
+				if nm.Name != "_" {
+					allBlank = false
+				}
+				lhs = append(lhs, nm)
+			}
+			if allBlank {
+				continue
+			}
+			list[i] = &ast.AssignStmt{Lhs: lhs, TokPos: gd.TokPos, Tok: token.DEFINE, Rhs: vs.Values}
+		}
+	}
+	ast.Inspect(f, func(n ast.Node) bool {
+		switch v := n.(type) {
+		case *ast.BlockStmt:
+			fix(v.List)
+		case *ast.CaseClause:
+			fix(v.Body)
+		case *ast.CommClause:
+			fix(v.Body)
+		}
+		return true
+	})
 }
